@@ -12,12 +12,15 @@ import (
 	"flag"
 	"fmt"
 	"net"
+	"net/http"
 	"os"
+	"os/exec"
 	"path/filepath"
 	"sort"
 	"strconv"
 	"strings"
 	"sync"
+	"syscall"
 	"time"
 
 	"github.com/relex/fluentlib/protocol/forwardprotocol"
@@ -58,6 +61,7 @@ type Gen struct {
 // Script is a whole history
 type Script struct {
 	ID         string `json:"id"`
+	ViaRun     bool   `json:"viaRun"`     // every generation is a child process running run.Run (the agent's main path): SIGTERM stops it, SIGHUP reloads it
 	TwoOutputs bool   `json:"twoOutputs"` // a second Fluentd output with its own upstream (Gen.Upstream2) and queue root
 	Keys       int    `json:"keys"`       // number of key sets (apps)
 	MemWindow  int    `json:"memWindow"`  // defs.BufferMaxNumChunksInMemory
@@ -350,11 +354,54 @@ func RunScript(sc Script, work string) *vtrace.Tracer {
 		})
 		_ = os.WriteFile(cf, []byte(conf("same", g.TwoKeys)), 0o644)
 		prefix := fmt.Sprintf("ag%d_g%d_", runNo, genNo)
+		var viaRunConf func(kind string) string
 		var orc base.Orchestrator
 		var launch func(base.Orchestrator) ([]string, func())
 		var gather func() map[string]float64
 		var reloadable *run.ReloadableOrchestrator
-		if g.Reload != "" {
+		var addrs []string
+		var shutdownInputs func()
+		var child *exec.Cmd
+		var childErr *strings.Builder
+		if sc.ViaRun {
+			// the agent's own main path in a child process; ports are chosen here because run.Run does not report them
+			prefix = "slogagent_"
+			inPort, mPort := freePort(), freePort()
+			confNow := func(kind string) string {
+				return strings.Replace(conf(kind, g.TwoKeys), "address: localhost:0", fmt.Sprintf("address: 127.0.0.1:%d", inPort), 1)
+			}
+			_ = os.WriteFile(cf, []byte(confNow("same")), 0o644)
+			cargs := []string{"ag-runmain", "-conf", cf, "-metrics", fmt.Sprintf("127.0.0.1:%d", mPort), "-memwindow", fmt.Sprint(defs.BufferMaxNumChunksInMemory)}
+			if g.Reload != "" {
+				cargs = append(cargs, "-reload")
+			}
+			if g.InputFlushMs > 0 {
+				cargs = append(cargs, "-inputflush", fmt.Sprint(g.InputFlushMs))
+			}
+			child = exec.Command(os.Args[0], cargs...)
+			childErr = &strings.Builder{}
+			child.Stderr = childErr
+			if err := child.Start(); err != nil {
+				tr.Emit("HarnessError", "what", err.Error())
+				return tr
+			}
+			addrs = []string{fmt.Sprintf("127.0.0.1:%d", inPort)}
+			up := false
+			for t0 := time.Now(); time.Since(t0) < 5*time.Second; time.Sleep(5 * time.Millisecond) {
+				if c, err := net.DialTimeout("tcp", addrs[0], 200*time.Millisecond); err == nil {
+					c.Close() // (an empty connection: the agent sees it come and go)
+					up = true
+					break
+				}
+			}
+			if !up {
+				_ = child.Process.Kill()
+				tr.Emit("HarnessError", "what", "the agent process did not start listening: "+childErr.String())
+				return tr
+			}
+			gather = func() map[string]float64 { return scrape(fmt.Sprintf("http://127.0.0.1:%d/metrics", mPort)) }
+			viaRunConf = confNow
+		} else if g.Reload != "" {
 			rl, err := run.NewReloaderFromConfigFile(cf, prefix)
 			if err != nil {
 				tr.Emit("HarnessError", "what", err.Error())
@@ -378,7 +425,9 @@ func RunScript(sc Script, work string) *vtrace.Tracer {
 		if g.InputFlushMs > 0 {
 			defs.InputFlushInterval = time.Duration(g.InputFlushMs) * time.Millisecond
 		}
-		addrs, shutdownInputs := launch(orc)
+		if !sc.ViaRun {
+			addrs, shutdownInputs = launch(orc)
+		}
 		var wg sync.WaitGroup
 		var openMu sync.Mutex
 		var openConns []net.Conn
@@ -418,6 +467,26 @@ func RunScript(sc Script, work string) *vtrace.Tracer {
 				tr.Emit("Sent", "gen", genNo, "c", c, "n", cl.N)
 				conn.Close()
 			}(ci+1, cl)
+		}
+		if g.Reload != "" && child != nil {
+			wg.Add(1)
+			go func() {
+				defer wg.Done()
+				time.Sleep(time.Duration(g.ReloadAtMs) * time.Millisecond)
+				_ = os.WriteFile(cf, []byte(viaRunConf(g.Reload)), 0o644)
+				m0 := gather()
+				before := sumMetric(m0, "slogagent_reloads_total")
+				tr.Emit("ReloadBegin", "kind", g.Reload)
+				_ = child.Process.Signal(syscall.SIGHUP)
+				m := m0
+				for t0 := time.Now(); time.Since(t0) < 5*time.Second; time.Sleep(5 * time.Millisecond) {
+					m = gather()
+					if sumMetric(m, "slogagent_reloads_total") > before {
+						break
+					}
+				}
+				tr.Emit("ReloadEnd", "kind", g.Reload, "success", sumMetric(m, "slogagent_reloads_total", "success"), "failure", sumMetric(m, "slogagent_reloads_total", "failure"), "before", before)
+			}()
 		}
 		if g.Reload != "" && reloadable != nil {
 			wg.Add(1)
@@ -492,18 +561,38 @@ func RunScript(sc Script, work string) *vtrace.Tracer {
 		t0 := time.Now()
 		tr.Emit("Stop", "gen", genNo)
 		done := make(chan struct{})
+		exitOK := true
 		go func() {
-			shutdownInputs()
-			orc.Shutdown()
+			if child != nil {
+				_ = child.Process.Signal(syscall.SIGTERM)
+				exitOK = child.Wait() == nil
+			} else {
+				shutdownInputs()
+				orc.Shutdown()
+			}
 			close(done)
 		}()
 		select {
 		case <-done:
+			if !exitOK {
+				d := childErr.String()
+				if i := strings.Index(d, "panic:"); i >= 0 {
+					d = d[i:]
+				}
+				if len(d) > 1500 {
+					d = d[:1500]
+				}
+				tr.Emit("Crashed", "gen", genNo, "detail", d) // the agent process did not end with a clean exit
+				return tr
+			}
 			tr.Emit("Stopped", "gen", genNo, "ms", time.Since(t0).Milliseconds())
 			for _, c := range openConns {
 				c.Close()
 			}
 		case <-time.After(20 * time.Second):
+			if child != nil {
+				_ = child.Process.Kill()
+			}
 			tr.Emit("HUNG", "gen", genNo)
 			return tr
 		}
@@ -512,6 +601,9 @@ func RunScript(sc Script, work string) *vtrace.Tracer {
 		if up2 != nil {
 			ds2, dok2 := diskStamps(queue2)
 			tr.Emit("Disk2", "gen", genNo, "stamps", ds2, "intact", dok2)
+		}
+		if child != nil {
+			continue // the process is gone and its registry with it: the counters of this path are checked by the in-process runs
 		}
 		m := gather()
 		nfiles := 0
@@ -551,6 +643,77 @@ func RunScript(sc Script, work string) *vtrace.Tracer {
 	return tr
 }
 
+// freePort asks the kernel for a free TCP port
+func freePort() int {
+	ln, err := net.Listen("tcp", "127.0.0.1:0")
+	if err != nil {
+		return 0
+	}
+	defer ln.Close()
+	return ln.Addr().(*net.TCPAddr).Port
+}
+
+// scrape reads the Prometheus text exposition of the agent process into name{labels} -> value
+func scrape(url string) map[string]float64 {
+	out := map[string]float64{}
+	cl := http.Client{Timeout: time.Second}
+	resp, err := cl.Get(url)
+	if err != nil {
+		return out
+	}
+	defer resp.Body.Close()
+	sc := bufio.NewScanner(resp.Body)
+	sc.Buffer(make([]byte, 1<<20), 1<<24)
+	for sc.Scan() {
+		line := sc.Text()
+		if line == "" || line[0] == '#' {
+			continue
+		}
+		i := strings.LastIndexByte(line, ' ')
+		if i < 0 {
+			continue
+		}
+		v, perr := strconv.ParseFloat(line[i+1:], 64)
+		if perr != nil {
+			continue
+		}
+		out[strings.ReplaceAll(line[:i], "\"", "")] = v
+	}
+	return out
+}
+
+// RunMain is the child process of Script.ViaRun: the agent's own main function with the timeouts scaled as in Main
+func RunMain(args []string) int {
+	fs := flag.NewFlagSet("ag-runmain", flag.ExitOnError)
+	conf := fs.String("conf", "", "configuration file")
+	metrics := fs.String("metrics", "127.0.0.1:0", "metric listener address")
+	reload := fs.Bool("reload", false, "allow reloads by SIGHUP")
+	memWindow := fs.Int("memwindow", 500, "defs.BufferMaxNumChunksInMemory")
+	inputFlush := fs.Int("inputflush", 30, "defs.InputFlushInterval in ms")
+	_ = fs.Parse(args)
+	logger.SetLogLevel(logger.FatalLevel)
+	scaleDefs()
+	defs.BufferMaxNumChunksInMemory = *memWindow
+	defs.InputFlushInterval = time.Duration(*inputFlush) * time.Millisecond
+	run.Run(*conf, *metrics, *reload)
+	return 0
+}
+
+func scaleDefs() {
+	defs.EnableTestMode()
+	defs.ForwarderRetryInterval = 20 * time.Millisecond
+	defs.ForwarderBatchAckTimeout = 250 * time.Millisecond
+	defs.ForwarderBatchSendTimeoutBase = 250 * time.Millisecond
+	defs.ForwarderPingInterval = 100 * time.Millisecond
+	defs.ForwarderAckerStopTimeout = 400 * time.Millisecond
+	defs.ForwarderConnectionTimeout = 300 * time.Millisecond
+	defs.IntermediateFlushInterval = 30 * time.Millisecond
+	defs.InputFlushInterval = 30 * time.Millisecond
+	defs.IntermediateChannelTimeout = 2 * time.Second
+	defs.BufferShutDownTimeout = 3 * time.Second
+	defs.ForwarderMaxPendingChunksForAck = 3 // a small ACK window, so that a silent upstream soon blocks the sender on it
+}
+
 // rankIDs replaces chunk id strings by their rank in the sorted order of all ids of the trace (ids sort by creation)
 func rankIDs(evs []vtrace.Event) {
 	set := map[string]bool{}
@@ -584,18 +747,7 @@ func Main(args []string) int {
 	dumpMetrics := fs.Bool("dumpmetrics", false, "print metric names once")
 	_ = fs.Parse(args)
 	logger.SetLogLevel(logger.FatalLevel)
-	defs.EnableTestMode()
-	defs.ForwarderRetryInterval = 20 * time.Millisecond
-	defs.ForwarderBatchAckTimeout = 250 * time.Millisecond
-	defs.ForwarderBatchSendTimeoutBase = 250 * time.Millisecond
-	defs.ForwarderPingInterval = 100 * time.Millisecond
-	defs.ForwarderAckerStopTimeout = 400 * time.Millisecond
-	defs.ForwarderConnectionTimeout = 300 * time.Millisecond
-	defs.IntermediateFlushInterval = 30 * time.Millisecond
-	defs.InputFlushInterval = 30 * time.Millisecond
-	defs.IntermediateChannelTimeout = 2 * time.Second
-	defs.BufferShutDownTimeout = 3 * time.Second
-	defs.ForwarderMaxPendingChunksForAck = 3 // a small ACK window, so that a silent upstream soon blocks the sender on it
+	scaleDefs()
 	f, err := os.Open(*scriptsPath)
 	if err != nil {
 		fmt.Fprintln(os.Stderr, err)
